@@ -17,14 +17,15 @@ RULE = ('parsing: every unit {none,b,k,kb,kib,m,mb,mib,g,gb,gib,t,tb,tib} x ever
         'round trip; fsize under several default_file_size_format settings')
 ASSUMPTIONS = ['literals whose byte count is not an integer are not generated (the statement defines no rounding)',
                'a fixed unit without explicit precision is checked for accuracy/monotonicity only (default precision undocumented)',
-               'integral quotients may be printed without decimals']
+               'integral quotients may be printed without decimals', 'the displayed quotient is a double: an error of one rounding (2^-52 relative) on top of the displayed precision is accepted']
 BUDGET = {'quick': 50, 'thorough': 900}
 
 UNITS = ['', 'b', 'k', 'kb', 'kib', 'm', 'mb', 'mib', 'g', 'gb', 'gib', 't', 'tb', 'tib']
 NUMS = ['1', '2', '5', '10', '0.5', '1.5', '2.25']
+NUMS_T = NUMS + ['0', '3', '7', '100', '1023', '1024', '0.25', '0.75', '12.5', '999', '1000', '0.125']
 OPS = [('=', lambda a, b: a == b), ('<', lambda a, b: a < b), ('>', lambda a, b: a > b), ('<=', lambda a, b: a <= b),
        ('>=', lambda a, b: a >= b), ('!=', lambda a, b: a != b)]
-GRID = sorted({0, 1, 2, 999, 1000, 1001, 1023, 1024, 1025, 1500, 1536, 2047, 2048, 10 ** 6 - 1, 10 ** 6, 10 ** 6 + 1,
+GRID = sorted({x for k in range(0, 51, 10) for x in (2 ** k - 1, 2 ** k, 2 ** k + 1)} | {x for k in (3, 6, 9, 12, 15) for x in (10 ** k - 1, 10 ** k, 10 ** k + 1)} | {0, 1, 2, 999, 1000, 1001, 1023, 1024, 1025, 1500, 1536, 2047, 2048, 10 ** 6 - 1, 10 ** 6, 10 ** 6 + 1,
                2 ** 20 - 1, 2 ** 20, 2 ** 20 + 1, 1678123, 123456789, 10 ** 9 - 1, 10 ** 9, 10 ** 9 + 1, 2 ** 30 - 1, 2 ** 30,
                2 ** 30 + 1, 5 * 2 ** 30 + 7, 10 ** 12 - 1, 10 ** 12, 10 ** 12 + 1, 2 ** 40 - 1, 2 ** 40, 2 ** 40 + 1, 3 * 10 ** 12 + 5})
 
@@ -43,25 +44,25 @@ def case_variants(u):
     return sorted({''.join(c) for c in itertools.product(*[(ch.lower(), ch.upper()) for ch in u])})
 
 
-def literal_cases():
+def literal_cases(tier='quick'):
     for u in UNITS:
-        for n in NUMS:
+        for n in (NUMS if tier == 'quick' else NUMS_T):
             v = Fraction(n) * mt.UNITS[u]
-            if v.denominator != 1:
-                continue
+            if v.denominator != 1 or v + 1 > 15 * 1024 ** 4:
+                continue        # ext4 cannot hold a file of that size
             for cv in case_variants(u):
                 yield n + cv, int(v)
 
 
-def size_files():
+def size_files(tier='quick'):
     vals = set()
-    for _, v in literal_cases():
+    for _, v in literal_cases(tier):
         vals.update(x for x in (v - 1, v, v + 1) if x >= 0)
     return sorted(vals)
 
 
-def specs():
-    for prec in (None, 0, 1, 2, 3):
+def specs(tier='quick'):
+    for prec in ((None, 0, 1, 2, 3) if tier == 'quick' else (None, 0, 1, 2, 3, 4, 5, 6)):
         for space in ('', ' '):
             for r in range(4):
                 for flags in itertools.combinations('cds', r):
@@ -74,13 +75,13 @@ def spec_text(s):
 
 
 def groups(tier, seed):
-    lits = list(literal_cases())
+    lits = list(literal_cases(tier))
     if tier == 'quick':
         # all units and case variants, numbers rotated so every number meets every unit
         pass
     for i in range(0, len(lits), 40):
-        yield {'kind': 'parse', 'lits': lits[i:i + 40]}
-    sp = list(specs())
+        yield {'kind': 'parse', 'lits': lits[i:i + 40], 'tier': tier}
+    sp = list(specs(tier))
     for i in range(0, len(sp), 40):
         yield {'kind': 'format', 'specs': sp[i:i + 40]}
     yield {'kind': 'doc'}
@@ -90,7 +91,7 @@ def groups(tier, seed):
 def single(case):
     k = case['kind']
     if k == 'parse':
-        return {'kind': 'parse', 'lits': [[case['lit'], case['bytes']]], 'op': case['op']}
+        return {'kind': 'parse', 'lits': [[case['lit'], case['bytes']]], 'op': case['op'], 'tier': case.get('tier', 'quick')}
     if k == 'format':
         return {'kind': 'format', 'specs': [case['spec']]}
     return {'kind': k}
@@ -137,7 +138,8 @@ def check_render(s, size, text):
     exact = Fraction(size, divider ** k)
     dec = len(fp) if fp else 0
     shown = Fraction(ip + ('.' + fp if fp else ''))
-    if abs(shown - exact) > Fraction(1, 2 * 10 ** dec) + Fraction(1, 10 ** 12):
+    # half a unit of the last displayed digit, plus the rounding error of one double-precision division
+    if abs(shown - exact) > Fraction(1, 2 * 10 ** dec) + Fraction(1, 10 ** 12) + abs(exact) * Fraction(1, 2 ** 51):
         return 'accuracy(shown %s, exact %s)' % (text, float(exact))
     prec = s['prec']
     if prec is not None or fixed is None:
@@ -154,7 +156,7 @@ def eval_group(env, group, tier):
     outs = []
     if kind == 'parse':
         root = env.newdir('c14')
-        sizes = size_files()
+        sizes = size_files(group.get('tier', tier))
         core.materialise(root, {'s%d' % v: F(v, sparse=True) for v in sizes})
         try:
             for lit, nbytes in group['lits']:
@@ -164,7 +166,7 @@ def eval_group(env, group, tier):
                     q = 'name from . where size %s %s into list' % (opname, lit)
                     o = env.run([q], cwd=root)
                     exp = sorted('s%d' % v for v in sizes if opf(v, nbytes))
-                    case = {'kind': 'parse', 'lit': lit, 'bytes': nbytes, 'op': opname, 'query': q}
+                    case = {'kind': 'parse', 'lit': lit, 'bytes': nbytes, 'op': opname, 'query': q, 'tier': group.get('tier', tier)}
                     r = {'case': case, 'nt': 0 < len(exp) < len(sizes), 'layer': 'parse'}
                     rows = o.rows()
                     if o.timeout or o.rc != 0 or o.err:
@@ -229,7 +231,7 @@ def eval_group(env, group, tier):
             outs.append(r)
     elif kind == 'fsize':
         root = env.newdir('c14f')
-        core.materialise(root, {'s%d' % v: F(v, sparse=True) for v in GRID})
+        core.materialise(root, {'s%d' % v: F(v, sparse=True) for v in GRID if v < 15 * 1024 ** 4})
         try:
             for spec in (None, '%.1 ', '%.0 d', '%.2ck', '%.3 s', ' kb'):
                 conf = open(env.config_path()).read()
@@ -243,7 +245,7 @@ def eval_group(env, group, tier):
                 s = parse_spec(spec or '')
                 r = {'case': {'kind': 'fsize', 'spec': spec}, 'nt': True, 'layer': 'fsize', 'trans': len(rows)}
                 bad = None
-                if o.rc != 0 or len(rows) != len(GRID):
+                if o.rc != 0 or len(rows) != len([v for v in GRID if v < 15 * 1024 ** 4]):
                     bad = ('status', o.brief())
                 for name, fs, hs in rows:
                     why = check_render(s, int(name[1:]), fs)
